@@ -23,6 +23,11 @@ fams = [
     dict(name='versions-2x1x2-ties', series=[1, 2], times=[1], versions=[1, 2], versioned=True, maxrows=3, maxtotal=5,
          maxops=4 if c.quick else 6, graphops=0 if c.quick else 2, sims=120 if c.quick else 900, simops=10),
 ]
+# three parts competing for one key: every arrival order of three versions (and of two equal ones), on the vectorized
+# pipeline (default) and on the row pipeline, whose merge of the parts' cursors is separate code
+for pname, flags in (('vec', []), ('row', ['--measure-vectorized-enabled=false'])):
+    fams.append(dict(name='three-parts-one-key-' + pname, series=[1], times=[1], versions=[1, 2, 3], versioned=True, maxrows=1, maxtotal=3,
+                     maxops=5, graphops=5, sims=0, simops=6, script=['write', 'write', 'write', 'flush', 'merge'], flags=flags))
 def nontrivial(st):
     ops = [x['last'].get('op') for x in st[1:]]
     keys = [(r['s'], r['t']) for x in st[1:] if x['last'].get('op') == 'write' for r in x['last']['rows']]
